@@ -23,6 +23,12 @@ def _scratch_cwd():
         d = tempfile.mkdtemp(prefix='simpex_c18_')
         _tmp[0] = (d, os.getpid())
         atexit.register(shutil.rmtree, d, True)
+        try:
+            # forked pool workers leave through os._exit(): atexit does not run there, multiprocessing's finalizers do
+            from multiprocessing import util as _mpu
+            _mpu.Finalize(None, shutil.rmtree, args=(d, True), exitpriority=0)
+        except Exception:
+            pass
     os.chdir(_tmp[0][0])
 
 
